@@ -57,7 +57,7 @@ def gen_mo_cases(tier, seed):
     rnd = random.Random(seed * 7919 + 19)
     cases = []
     Ls = [0, 1, 7, 64, -1]
-    reps = 6 if tier == "quick" else 150
+    reps = 6 if tier == "quick" else 300
     for rep in range(reps):
         for (nodes, ppn) in LAYOUTS:
             for L in Ls:
